@@ -34,6 +34,12 @@ def conc_wrapper(pos, cell, pbc, cutoff):
     pos, msgs = np.array(pos, float), []
     cellv = np.eye(3) if cell is None else np.array(cell, float)
     pb = G.expand_pbc(pbc)
+    # the statement is about atoms lying inside the cell: fold them in along periodic axes first
+    fr = np.linalg.solve(cellv.T, pos.T).T
+    for k in range(3):
+        if pb[k]:
+            fr[:, k] %= 1.0
+    pos = fr @ cellv
     try:
         disp, fac, dist = G.get_displacement_tensor(pos, None if cell is None else cellv, pbc, cutoff=cutoff, return_factors=True, return_distances=True)
         only = G.get_displacement_tensor(pos, None if cell is None else cellv, pbc, cutoff=cutoff)
